@@ -93,14 +93,17 @@ func (h *killedHandler) cleanupIfNotRestarting() {
 	}
 
 	h.ctx.EventStream().UnsubscribeAll(h.ctx)
-	h.ctx.system.removeActorContext(h.ctx)
 
 	// 通知事件流（必须先于通知父节点：父节点收到通知后可能立即完成自身终止并发布事件，
-	// 若此处后发布，则会出现父 Actor 的 ActorKilledEvent 先于其后代的情况）
+	// 若此处后发布，则会出现父 Actor 的 ActorKilledEvent 先于其后代的情况；
+	// 同时必须先于路径的释放：路径一旦释放，父节点即可用同名重新创建子 Actor 并覆盖其对旧实例的记录，
+	// 进而在旧实例的终止事件发布之前完成自身的终止）
 	h.ctx.EventStream().Publish(h.ctx, ves.ActorKilledEvent{
 		ActorRef: h.ctx.ref,
 		Type:     reflect.TypeOf(h.ctx.actor),
 	})
+
+	h.ctx.system.removeActorContext(h.ctx)
 
 	// 通知所有监听者
 	for _, watcher := range h.ctx.watchers {
